@@ -385,3 +385,332 @@ Qed.
 
 Lemma kind_eqb_refl k : kind_eqb k k = true.
 Proof. destruct k; reflexivity. Qed.
+
+Lemma first_sub_some g h l : forall i0 a, first_sub g h i0 l = Some a ->
+  exists j sp, nth_error l j = Some sp /\ sub_next g h (i0 + j) sp = Some a.
+Proof.
+  induction l as [|sp l IH]; intros i0 a H; cbn in H; [discriminate|].
+  destruct (sub_next g h i0 sp) as [b|] eqn:E.
+  - inversion H; subst. exists 0%nat, sp. rewrite Nat.add_0_r. auto.
+  - destruct (IH _ _ H) as (j & sp1 & Hj & Hn). exists (S j), sp1. rewrite <- plus_n_Sm. auto.
+Qed.
+Lemma first_sub_none g h l : forall i0, first_sub g h i0 l = None ->
+  forall j sp, nth_error l j = Some sp -> sub_next g h (i0 + j) sp = None.
+Proof.
+  induction l as [|sp l IH]; intros i0 H j sp0 Hj; [destruct j; discriminate|]. cbn in H.
+  destruct (sub_next g h i0 sp) as [b|] eqn:E; [discriminate|]. destruct j; cbn in Hj.
+  - inversion Hj; subst. now rewrite Nat.add_0_r.
+  - rewrite <- plus_n_Sm. apply (IH (S i0)); assumption.
+Qed.
+Lemma first_handler_some g l : forall h0 a, first_handler g h0 l = Some a ->
+  exists j hd, nth_error l j = Some hd /\ handler_next g (h0 + j) hd = Some a.
+Proof.
+  induction l as [|hd l IH]; intros h0 a H; cbn in H; [discriminate|].
+  destruct (handler_next g h0 hd) as [b|] eqn:E.
+  - inversion H; subst. exists 0%nat, hd. rewrite Nat.add_0_r. auto.
+  - destruct (IH _ _ H) as (j & hd1 & Hj & Hn). exists (S j), hd1. rewrite <- plus_n_Sm. auto.
+Qed.
+Lemma first_handler_none g l : forall h0, first_handler g h0 l = None ->
+  forall j hd, nth_error l j = Some hd -> handler_next g (h0 + j) hd = None.
+Proof.
+  induction l as [|hd l IH]; intros h0 H j hd0 Hj; [destruct j; discriminate|]. cbn in H.
+  destruct (handler_next g h0 hd) as [b|] eqn:E; [discriminate|]. destruct j; cbn in Hj.
+  - inversion Hj; subst. now rewrite Nat.add_0_r.
+  - rewrite <- plus_n_Sm. apply (IH (S h0)); assumption.
+Qed.
+
+Lemma verdict_some l : (forall sp, In sp l -> sp_result sp <> None) -> exists ok, verdict l = Some ok.
+Proof.
+  induction l as [|sp l IH]; intros H; cbn; [eauto|].
+  destruct (sp_result sp) as [[|]|] eqn:E.
+  - apply IH. intros x Hx. apply H. right. assumption.
+  - eauto.
+  - exfalso. apply (H sp); [left; reflexivity|assumption].
+Qed.
+
+(* a sub-push without a result has a step when every worker is empty *)
+Lemma sub_next_routed sig g h i sp : PI sig g -> sub_at (hs g) h i = Some sp -> sp_result sp = None -> sub_next g h i sp <> None.
+Proof.
+  intros P Hsub Hr. unfold sub_next. rewrite Hr. destruct (sp_cur sp); [discriminate|].
+  pose proof (pi_subs _ _ P _ _ _ Hsub) as R. unfold routed in R. apply andb_true_iff in R as [R _].
+  rewrite <- (pi_sig _ _ P) in R. destruct (pick_worker_some _ _ _ R 0%nat) as (s & ->). discriminate.
+Qed.
+
+Lemma mu_eq g1 g2 : hs g1 = hs g2 -> attempts g1 = attempts g2 -> svcs g1 = svcs g2 -> mu g1 = mu g2.
+Proof. unfold mu. intros -> -> ->. reflexivity. Qed.
+
+Lemma wm_request sv p r sz sv' vs : sstep sv (SRequest p r sz) = Some (sv', vs) -> wm sv' <= wm sv + 5.
+Proof.
+  intros H. destruct (sstep_request _ _ _ _ _ _ H) as (I & C & [(ok & _ & R & Pl)|(_ & R & Pl)]); unfold wm; rewrite I, C, R.
+  - rewrite Pl. lia.
+  - destruct (results sv) as [|x xs]; cbn [app is_nil].
+    + destruct (inflight sv) as [[? ? [|]]|]; cbn; destruct (planned sv'), (client sv); lia.
+    + destruct (planned sv) eqn:E; [rewrite (Pl eq_refl); lia|]. destruct (planned sv'); lia.
+Qed.
+
+Lemma hm_subs att hd i sp sp' : nth_error (h_subs hd) i = Some sp ->
+  hm att {| h_items := h_items hd; h_subs := upd i sp' (h_subs hd); h_answer := h_answer hd |} + 6 * sw att sp =
+  hm att hd + 6 * sw att sp'.
+Proof.
+  intros Hi. unfold hm; cbn [h_items h_subs h_answer]. pose proof (list_sum_upd (sw att) _ _ _ sp' Hi). lia.
+Qed.
+
+Lemma list_sum_cons a l : list_sum (a :: l) = a + list_sum l.
+Proof. reflexivity. Qed.
+Lemma list_sum_nil : list_sum [] = 0.
+Proof. reflexivity. Qed.
+Ltac norm M := cbn [map iw h_items h_subs h_answer] in M; rewrite ?list_sum_cons, ?list_sum_nil in M; cbv iota beta in M.
+
+Lemma handler_progress sig g h hd a : PI sig g -> quiet_all (svcs g) -> nth_error (hs g) h = Some hd ->
+  handler_next g h hd = Some a ->
+  internal a = true /\ act_live sig a = true /\ (forall s ok, a <> GSvc s (SDoReturn ok)) /\
+  exists g' es, gstep g a = Some (g', es) /\ mu g' < mu g.
+Proof.
+  intros P Q Hh Hn. unfold handler_next in Hn.
+  destruct (h_items hd) as [|it rest] eqn:Hit.
+  2:{ (* doParse receives the next item *)
+    inversion Hn; subst a; clear Hn. split; [reflexivity|]. split; [reflexivity|]. split; [discriminate|].
+    cbn. rewrite Hh, Hit. destruct it as [c|].
+    - eexists; eexists. split; [reflexivity|]. pose proof (mu_handler g h hd {| h_items := rest; h_subs := h_subs hd ++ map (mk_sub (attempts g)) c; h_answer := h_answer hd |} Hh) as M.
+      unfold hm in M at 1 2. cbn [h_items h_subs h_answer] in M. rewrite Hit in M. norm M.
+      rewrite map_app, list_sum_app, map_map in M. lia.
+    - destruct (h_answer hd) eqn:Ha.
+      + eexists; eexists. split; [reflexivity|]. pose proof (mu_handler g h hd {| h_items := []; h_subs := h_subs hd; h_answer := h_answer hd |} Hh) as M.
+        unfold hm in M at 1 2. cbn [h_items h_subs h_answer] in M. rewrite Hit, Ha in M. norm M. lia.
+      + eexists; eexists. split; [reflexivity|]. pose proof (mu_handler g h hd {| h_items := []; h_subs := h_subs hd; h_answer := Some false |} Hh) as M.
+        unfold hm in M at 1 2. cbn [h_items h_subs h_answer] in M. rewrite Hit, Ha in M. norm M. lia. }
+  destruct (first_sub g h 0 (h_subs hd)) as [b|] eqn:Hf.
+  - inversion Hn; subst b; clear Hn. destruct (first_sub_some _ _ _ _ _ Hf) as (i & sp & Hi & Hs). cbn in Hs.
+    pose proof (PI_handler _ _ _ _ P Hh _ _ Hi) as (Pc & Pr & Prt).
+    unfold sub_next in Hs. destruct (sp_result sp) eqn:Hres; [discriminate|]. destruct (sp_cur sp) as [k|] eqn:Hcur.
+    + (* return from Get(): the promise is completed, because no worker holds anything *)
+      inversion Hs; subst a; clear Hs. split; [reflexivity|]. split; [reflexivity|]. split; [discriminate|].
+      destruct (Pc _ eq_refl) as [X|X]; [rewrite (quiet_LL _ Q) in X; destruct X|].
+      destruct (in_store_lookup _ _ X) as ([[k0 r0] ok] & L). cbn. rewrite Hh, Hi, Hcur, L.
+      eexists; eexists. split; [reflexivity|].
+      set (sp' := {| sp_svc := sp_svc sp; sp_kind := sp_kind sp; sp_req := sp_req sp; sp_sz := sp_sz sp; sp_used := sp_used sp; sp_cur := None;
+                     sp_result := if ok then Some true else if N.ltb (sp_used sp) (attempts g) then None else Some false |}).
+      pose proof (mu_handler g h hd {| h_items := h_items hd; h_subs := upd i sp' (h_subs hd); h_answer := h_answer hd |} Hh) as M.
+      pose proof (hm_subs (attempts g) hd i sp sp' Hi) as M2.
+      assert (W : sw (attempts g) sp' < sw (attempts g) sp).
+      { unfold sw, sp'; cbn. rewrite Hres, Hcur. destruct ok; [lia|]. destruct (N.ltb (sp_used sp) (attempts g)); lia. }
+      lia.
+    + (* the doPush goroutine starts its next attempt *)
+      destruct (pick_worker (svcs g) 0 (sp_svc sp) (sp_kind sp)) as [s|] eqn:Hp; [|discriminate].
+      inversion Hs; subst a; clear Hs. split; [reflexivity|]. split; [reflexivity|]. split; [discriminate|].
+      destruct (pick_worker_spec _ _ _ _ _ Hp) as (j & sv & -> & Hj & G & K). cbn [Nat.add] in *.
+      specialize (Pr eq_refl eq_refl). cbn. rewrite Hh, Hi, Hres, Hcur. cbn [is_none andb].
+      assert (E1 : N.ltb (sp_used sp) (attempts g) = true) by (apply N.ltb_lt; assumption).
+      assert (E2 : may_take g j sp = true).
+      { unfold may_take. rewrite Hj, G, K, Nat.eqb_refl, kind_eqb_refl, (quiet_rr _ _ _ Q Hj). reflexivity. }
+      rewrite E1, E2. cbn [andb].
+      assert (Hst : exists sv' vs, sstep sv (SRequest (PSub h i (sp_used sp)) (sp_req sp) (sp_sz sp)) = Some (sv', vs)).
+      { cbn. rewrite (pi_run _ _ P _ _ Hj). cbn. unfold routed in Prt. apply andb_true_iff in Prt as [_ Prt]. rewrite K.
+        destruct (eff (sp_kind sp) (sp_req sp)); [|discriminate]. destruct (Nat.eqb _ 0); eauto. }
+      destruct Hst as (sv' & vs & Hst). destruct (svc_act_total g j _ _ _ _ Hj Hst) as (g1 & es1 & Hact). rewrite Hact.
+      eexists; eexists. split; [reflexivity|].
+      destruct (svc_act_frame _ _ _ _ _ Hact) as (sv0 & sv0' & vs0 & es0 & Hs0 & Hst0 & _ & Esv & Eh & Ea).
+      rewrite Hj in Hs0. inversion Hs0; subst sv0. rewrite Hst in Hst0. inversion Hst0; subst sv0' vs0. clear Hs0 Hst0.
+      set (sp' := {| sp_svc := sp_svc sp; sp_kind := sp_kind sp; sp_req := sp_req sp; sp_sz := sp_sz sp; sp_used := N.succ (sp_used sp);
+                     sp_cur := Some (sp_used sp); sp_result := None |}).
+      assert (Hh1 : nth_error (hs g1) h = Some hd) by (rewrite Eh; assumption).
+      pose proof (mu_handler g1 h hd {| h_items := h_items hd; h_subs := upd i sp' (h_subs hd); h_answer := h_answer hd |} Hh1) as M.
+      rewrite Ea in M. pose proof (hm_subs (attempts g) hd i sp sp' Hi) as M2.
+      assert (M3 : mu g1 + wm sv = mu g + wm sv').
+      { rewrite (mu_eq g1 (set_svcs g (upd j sv' (svcs g)) (store g))) by (cbn; auto). apply mu_svc. assumption. }
+      pose proof (wm_request _ _ _ _ _ _ Hst) as W.
+      assert (W2 : sw (attempts g) sp' + 1 = sw (attempts g) sp).
+      { unfold sw, sp'; cbn. rewrite Hres, Hcur. rewrite N2Nat.inj_succ. apply N.ltb_lt in E1. lia. }
+      lia.
+  - (* every sub-push has its result: doParse answers *)
+    destruct (h_answer hd) eqn:Ha; [discriminate|]. inversion Hn; subst a; clear Hn.
+    split; [reflexivity|]. split; [reflexivity|]. split; [discriminate|].
+    assert (V : exists ok, verdict (h_subs hd) = Some ok).
+    { apply verdict_some. intros sp Hin Hr. apply In_nth_error in Hin as (i & Hi).
+      pose proof (first_sub_none _ _ _ _ Hf _ _ Hi) as X. cbn in X.
+      exact (sub_next_routed _ _ _ _ _ P (sub_at_intro _ _ _ _ _ Hh Hi) Hr X). }
+    destruct V as (ok & V). cbn. rewrite Hh, Hit, Ha, V. eexists; eexists. split; [reflexivity|].
+    pose proof (mu_handler g h hd {| h_items := []; h_subs := h_subs hd; h_answer := Some ok |} Hh) as M.
+    unfold hm in M at 1 2. cbn [h_items h_subs h_answer] in M. rewrite Hit, Ha in M. norm M. lia.
+Qed.
+
+Lemma internal_live sig a : internal a = true -> act_live sig a = true.
+Proof. destruct a as [s a| | | | | |]; cbn; try reflexivity; try discriminate. destruct a; cbn; try reflexivity; discriminate. Qed.
+
+(* ---------------------------------------------------------------- progress *)
+Theorem sched_progress sig db g : PI sig g ->
+  match next_act db g with
+  | Some a => internal a = true /\ act_live sig a = true /\
+              (forall s ok, a = GSvc s (SDoReturn ok) -> ok = db g s) /\
+              exists g' es, gstep g a = Some (g', es) /\ mu g' < mu g
+  | None => all_done g = true
+  end.
+Proof.
+  intros P. unfold next_act. destruct (first_svc (db g) (svcs g) 0) as [a|] eqn:F.
+  - destruct (first_svc_some _ _ _ _ F) as (s & sv & sa & -> & Hs & Hn). cbn [Nat.add] in *.
+    destruct (svc_next_step _ _ _ (pi_run _ _ P _ _ Hs) Hn) as (sv' & vs & Hst & W & NR & INT & DB).
+    assert (I2 : internal (GSvc s sa) = true) by exact INT.
+    split; [exact I2|]. split; [apply internal_live; exact I2|]. split.
+    + intros s0 ok E. inversion E; subst. apply DB. reflexivity.
+    + destruct (svc_act_total g s _ _ _ _ Hs Hst) as (g' & es & Hact). exists g', es. split; [cbn; rewrite NR; exact Hact|].
+      destruct (svc_act_frame _ _ _ _ _ Hact) as (sv0 & sv0' & vs0 & es0 & Hs0 & Hst0 & _ & Esv & Eh & Ea).
+      rewrite Hs in Hs0. inversion Hs0; subst sv0. rewrite Hst in Hst0. inversion Hst0; subst sv0' vs0.
+      rewrite (mu_eq g' (set_svcs g (upd s sv' (svcs g)) (store g))) by (cbn; auto).
+      pose proof (mu_svc g s sv sv' (store g) Hs). lia.
+  - assert (Q : quiet_all (svcs g)) by (intros s sv Hs; eapply first_svc_none; eauto).
+    destruct (first_handler g 0 (hs g)) as [a|] eqn:FH.
+    + destruct (first_handler_some _ _ _ _ FH) as (h & hd & Hh & Hn). cbn [Nat.add] in Hn.
+      destruct (handler_progress _ _ _ _ _ P Q Hh Hn) as (I1 & I2 & ND & St).
+      split; [assumption|]. split; [assumption|]. split; [|assumption]. intros s ok E. exfalso. exact (ND _ _ E).
+    + unfold all_done. apply andb_true_iff. split.
+      * apply forallb_forall. intros sv Hin. apply In_nth_error in Hin as (s & Hs). destruct (Q _ _ Hs) as [R I].
+        unfold svc_quiet. rewrite R, I. reflexivity.
+      * apply forallb_forall. intros hd Hin. apply In_nth_error in Hin as (h & Hh).
+        pose proof (first_handler_none _ _ _ FH _ _ Hh) as X. cbn [Nat.add] in X. unfold handler_next in X.
+        destruct (h_items hd) eqn:Hit; [|discriminate]. destruct (first_sub g h 0 (h_subs hd)) eqn:Hf; [discriminate|].
+        destruct (h_answer hd) eqn:Ha; [|discriminate]. unfold handler_done. rewrite Hit, Ha. cbn.
+        apply forallb_forall. intros sp Hsp. apply In_nth_error in Hsp as (i & Hi).
+        pose proof (first_sub_none _ _ _ _ Hf _ _ Hi) as Y. cbn [Nat.add] in Y.
+        destruct (sp_result sp) eqn:Hr; [reflexivity|]. exfalso.
+        exact (sub_next_routed _ _ _ _ _ P (sub_at_intro _ _ _ _ _ Hh Hi) Hr Y).
+Qed.
+
+Lemma follows_head (db : gstate -> nat -> bool) g a : (forall s ok, a = GSvc s (SDoReturn ok) -> ok = db g s) ->
+  match a with GSvc s (SDoReturn ok) => Bool.eqb ok (db g s) | _ => true end = true.
+Proof.
+  intros H. destruct a as [s a| | | | | |]; try reflexivity. destruct a; try reflexivity.
+  rewrite (H _ _ eq_refl). apply eqb_reflx.
+Qed.
+
+(* the scheduler, run for mu g steps, answers every push *)
+Theorem sched_completes sig db : forall fuel g, PI sig g -> mu g <= fuel ->
+  exists g' tr es, run_sched db fuel g = (g', tr, es) /\ grun g tr = Some (g', es) /\ all_done g' = true /\
+    forallb internal tr = true /\ follows db g tr = true /\ length tr <= mu g /\ PI sig g'.
+Proof.
+  induction fuel as [|f IH]; intros g P Hm.
+  - exists g, [], []. cbn. pose proof (sched_progress sig db g P) as SP. destruct (next_act db g) as [a|].
+    + destruct SP as (_ & _ & _ & g' & es & _ & L). lia.
+    + split; [reflexivity|]. split; [reflexivity|]. split; [exact SP|]. split; [reflexivity|]. split; [reflexivity|].
+      split; [cbn; lia|exact P].
+  - pose proof (sched_progress sig db g P) as SP. cbn [run_sched]. destruct (next_act db g) as [a|].
+    + destruct SP as (I1 & I2 & DB & g1 & e1 & Hst & L). rewrite Hst.
+      assert (P1 : PI sig g1) by (eapply gstep_PI; eauto).
+      destruct (IH g1 P1 ltac:(lia)) as (g2 & tr & e2 & R & Hrun & D & I & F & Len & P2). rewrite R.
+      exists g2, (a :: tr), (e1 ++ e2). split; [reflexivity|]. split; [cbn; rewrite Hst, Hrun; reflexivity|].
+      split; [assumption|]. split; [cbn; rewrite I1, I; reflexivity|]. split.
+      * cbn [follows]. rewrite (follows_head _ _ _ DB), Hst, F. reflexivity.
+      * split; [cbn; lia|assumption].
+    + exists g, [], []. split; [reflexivity|]. split; [reflexivity|]. split; [exact SP|]. split; [reflexivity|]. split; [reflexivity|].
+      split; [cbn; lia|exact P].
+Qed.
+
+(* ---------------------------------------------------------------- answered handlers are in the event log *)
+Definition InvA (g : gstate) (es : list event) : Prop :=
+  forall h hd, nth_error (hs g) h = Some hd -> h_answer hd <> None -> In h (answered es).
+
+Lemma InvA_same g g' es e1 : InvA g es -> hs g' = hs g -> InvA g' (es ++ e1).
+Proof. intros H E h hd Hh Ha. rewrite E in Hh. rewrite answered_app. apply in_app_iff. left. eauto. Qed.
+
+Lemma InvA_upd g g' es e1 h hd hd' : InvA g es -> nth_error (hs g) h = Some hd -> hs g' = upd h hd' (hs g) ->
+  (h_answer hd' <> None -> h_answer hd <> None \/ In h (answered e1)) -> InvA g' (es ++ e1).
+Proof.
+  intros H Hh E Ha h0 hd0 H0 A0. rewrite E in H0. rewrite answered_app. apply in_app_iff.
+  apply nth_error_upd_cases in H0 as [[<- ->]|[Hne H0]].
+  - destruct (Ha A0) as [X|X]; [left; eauto|right; assumption].
+  - left. eauto.
+Qed.
+
+Lemma gstep_InvA g a g' e1 es : gstep g a = Some (g', e1) -> InvA g es -> InvA g' (es ++ e1).
+Proof.
+  intros Hstep HI. destruct a as [s a|s k n r sz|items|h|h i s|h i|h]; cbn in Hstep.
+  - destruct (is_request a); [discriminate|]. apply svc_act_hs in Hstep as [E _]. eapply InvA_same; eauto.
+  - destruct (nth_error (svcs g) s); [|discriminate]. destruct (_ && _); [|discriminate].
+    apply svc_act_hs in Hstep as [E _]. eapply InvA_same; eauto.
+  - inversion Hstep; subst. rewrite app_nil_r. intros h hd Hh Ha. cbn in Hh.
+    destruct (Nat.lt_ge_cases h (length (hs g))) as [L|L].
+    + rewrite nth_error_app1 in Hh by assumption. eauto.
+    + rewrite nth_error_app2 in Hh by assumption. destruct (h - length (hs g))%nat as [|[|?]]; cbn in Hh; try discriminate.
+      inversion Hh; subst. cbn in Ha. congruence.
+  - destruct (nth_error (hs g) h) as [hd|] eqn:Hh; [|discriminate].
+    destruct (h_items hd) as [|[c|] rest]; [discriminate| |].
+    + inversion Hstep; subst. eapply (InvA_upd g _ es _ h hd); [exact HI|exact Hh|reflexivity|cbn; auto].
+    + destruct (h_answer hd) eqn:Ha; inversion Hstep; subst.
+      * eapply (InvA_upd g _ es _ h hd); [exact HI|exact Hh|reflexivity|cbn; intros _; left; congruence].
+      * eapply (InvA_upd g _ es _ h hd); [exact HI|exact Hh|reflexivity|cbn; intros _; right; left; reflexivity].
+  - destruct (nth_error (hs g) h) as [hd|] eqn:Hh; [|discriminate].
+    destruct (nth_error (h_subs hd) i) as [sp|]; [|discriminate].
+    destruct (_ && _); [|discriminate].
+    destruct (svc_act g s _) as [[g1 es1]|] eqn:Hact; [|discriminate]. inversion Hstep; subst; clear Hstep.
+    destruct (svc_act_hs _ _ _ _ _ Hact) as [Eh _].
+    assert (H1 : InvA g1 (es ++ e1)) by (eapply InvA_same; eauto).
+    intros h0 hd0 H0 A0. cbn in H0. apply nth_error_upd_cases in H0 as [[<- ->]|[Hne H0]].
+    + cbn in A0. apply (H1 h hd); [rewrite Eh; assumption|assumption].
+    + eauto.
+  - destruct (nth_error (hs g) h) as [hd|] eqn:Hh; [|discriminate].
+    destruct (nth_error (h_subs hd) i) as [sp|]; [|discriminate].
+    destruct (sp_cur sp); [|discriminate]. destruct (lookup_store _ _) as [[[? ?] ok]|]; [|discriminate].
+    inversion Hstep; subst. eapply (InvA_upd g _ es _ h hd); [exact HI|exact Hh|reflexivity|cbn; auto].
+  - destruct (nth_error (hs g) h) as [hd|] eqn:Hh; [|discriminate].
+    destruct (h_items hd); [|discriminate]. destruct (h_answer hd) eqn:Ha; [discriminate|].
+    destruct (verdict _) as [ok|]; [|discriminate]. inversion Hstep; subst.
+    eapply (InvA_upd g _ es _ h hd); [exact HI|exact Hh|reflexivity|cbn; intros _; right; left; reflexivity].
+Qed.
+
+Lemma grun_InvA tr : forall g g' es0 es, grun g tr = Some (g', es) -> InvA g es0 -> InvA g' (es0 ++ es).
+Proof.
+  induction tr as [|a tr IH]; intros g g' es0 es Hrun HI; cbn in Hrun.
+  - inversion Hrun; subst. now rewrite app_nil_r.
+  - destruct (gstep g a) as [[g1 e1]|] eqn:Es; [|discriminate].
+    destruct (grun g1 tr) as [[g2 e2]|] eqn:Er; [|discriminate]. inversion Hrun; subst.
+    rewrite app_assoc. eapply IH; [exact Er|]. eapply gstep_InvA; eauto.
+Qed.
+
+Lemma grun_app tr1 : forall g g1 e1 tr2 g2 e2, grun g tr1 = Some (g1, e1) -> grun g1 tr2 = Some (g2, e2) ->
+  grun g (tr1 ++ tr2) = Some (g2, e1 ++ e2).
+Proof.
+  induction tr1 as [|a tr1 IH]; intros g g1 e1 tr2 g2 e2 H1 H2; cbn in H1 |- *.
+  - inversion H1; subst. exact H2.
+  - destruct (gstep g a) as [[g' e]|]; [|discriminate]. destruct (grun g' tr1) as [[g'' e']|] eqn:E; [|discriminate].
+    inversion H1; subst. rewrite (IH _ _ _ _ _ _ E H2). now rewrite app_assoc.
+Qed.
+
+(* ---------------------------------------------------------------- the statement of props/C01.v *)
+Theorem every_push_answered_once cfg n tr g es db :
+  grun (ginit cfg n) tr = Some (g, es) -> forallb (act_live (sig_of_cfg cfg)) tr = true ->
+  exists tr' g' es',
+    grun g tr' = Some (g', es') /\ forallb internal tr' = true /\ follows db g tr' = true /\ length tr' <= mu g /\
+    all_done g' = true /\ length (hs g') = length (hs g) /\
+    forall h, h < length (hs g) -> count_occ Nat.eq_dec (answered (es ++ es')) h = 1.
+Proof.
+  intros Hrun Hl. pose proof (reachable_PI _ _ _ _ _ Hrun Hl) as P.
+  destruct (sched_completes _ db (mu g) g P (le_n _)) as (g' & tr' & es' & _ & Hrun' & D & I & F & Len & _).
+  exists tr', g', es'. split; [assumption|]. split; [assumption|]. split; [assumption|]. split; [assumption|]. split; [assumption|].
+  pose proof (grun_app _ _ _ _ _ _ _ Hrun Hrun') as Hall.
+  assert (I0 : Inv1 (ginit cfg n) []) by (unfold Inv1; cbn; repeat split; try constructor; intros ? []).
+  destruct (grun_Inv1 _ _ _ _ _ Hall I0) as (_ & _ & ND & AH). cbn [app] in ND, AH.
+  assert (A0 : InvA (ginit cfg n) []) by (intros h hd Hh; destruct h; discriminate).
+  pose proof (grun_InvA _ _ _ _ _ Hall A0) as IA. cbn [app] in IA.
+  assert (Hlen : length (hs g') = length (hs g)).
+  { clear - Hrun' I. revert g Hrun' I. revert es'. induction tr' as [|a t IH]; intros es' g Hr Hi; cbn in Hr.
+    - inversion Hr; subst. reflexivity.
+    - cbn in Hi. apply andb_true_iff in Hi as [Ha Hi]. destruct (gstep g a) as [[g1 e1]|] eqn:Es; [|discriminate].
+      destruct (grun g1 t) as [[g2 e2]|] eqn:Er; [|discriminate]. inversion Hr; subst. rewrite (IH _ _ Er Hi). clear IH Er Hi.
+      destruct a as [s a|s k n r sz|items|h|h i s|h i|h]; cbn in Es, Ha; try discriminate.
+      + destruct (is_request a); [discriminate|]. apply svc_act_hs in Es as [E _]. now rewrite E.
+      + destruct (nth_error (hs g) h) as [hd|]; [|discriminate]. destruct (h_items hd) as [|[c|] rest]; [discriminate| |].
+        * inversion Es; subst. cbn. apply length_upd.
+        * destruct (h_answer hd); inversion Es; subst; cbn; apply length_upd.
+      + destruct (nth_error (hs g) h) as [hd|]; [|discriminate]. destruct (nth_error (h_subs hd) i) as [sp|]; [|discriminate].
+        destruct (_ && _); [|discriminate]. destruct (svc_act g s _) as [[g3 es3]|] eqn:Hact; [|discriminate].
+        inversion Es; subst. cbn. rewrite length_upd. apply svc_act_hs in Hact as [E _]. now rewrite E.
+      + destruct (nth_error (hs g) h) as [hd|]; [|discriminate]. destruct (nth_error (h_subs hd) i) as [sp|]; [|discriminate].
+        destruct (sp_cur sp); [|discriminate]. destruct (lookup_store _ _) as [[[? ?] ok]|]; [|discriminate].
+        inversion Es; subst. cbn. apply length_upd.
+      + destruct (nth_error (hs g) h) as [hd|]; [|discriminate]. destruct (h_items hd); [|discriminate].
+        destruct (h_answer hd); [discriminate|]. destruct (verdict _); [|discriminate]. inversion Es; subst. cbn. apply length_upd. }
+  split; [assumption|]. intros h Hh. apply NoDup_count_occ'; [assumption|].
+  rewrite <- Hlen in Hh. destruct (nth_error (hs g') h) as [hd|] eqn:E; [|apply nth_error_None in E; lia].
+  apply (IA h hd E). unfold all_done in D. apply andb_true_iff in D as [_ D]. rewrite forallb_forall in D.
+  specialize (D hd (nth_error_In _ _ E)). unfold handler_done in D. apply andb_true_iff in D as [D _].
+  apply andb_true_iff in D as [_ D]. destruct (h_answer hd); [discriminate|discriminate].
+Qed.
